@@ -42,13 +42,17 @@ func (fr *Frame) nativeCallVals(st *State, fn *ssa.Function, args []Val, sig *ty
 	case nonNilErrorFuncs[name]:
 		used()
 		e := r.freshOf(st, "err", errT)
-		r.assumeGlobal(not(eq(app("i_tag", e.S), "0")))
+		// the dynamic type is a private type of the errors library (distinct from every type of the module)
+		r.assumeGlobal(eq(app("i_tag", e.S), num(int64(r.eng.pseudoTypeID("errors library: fundamental")))))
 		return e, true
 	case wrapErrorFuncs[name]:
 		used()
 		in := fr.tvOf(st, args[0], errT)
 		e := r.freshOf(st, "werr", errT)
 		r.assumeGlobal(eq(eq(app("i_tag", e.S), "0"), eq(app("i_tag", in.S), "0")))
+		if !strings.HasSuffix(name, ".Cause") {
+			r.assumeGlobal(or(eq(app("i_tag", e.S), "0"), eq(app("i_tag", e.S), num(int64(r.eng.pseudoTypeID("errors library: wrapper"))))))
+		}
 		if strings.HasSuffix(name, ".WithStack") || strings.HasSuffix(name, ".Trace") || strings.HasSuffix(name, ".AddStack") {
 			// cause is preserved (used by errors.Cause / Is comparisons)
 			r.assumeGlobal(eq(app("errcause", e.S), app("errcause", in.S)))
@@ -57,6 +61,46 @@ func (fr *Frame) nativeCallVals(st *State, fn *ssa.Function, args []Val, sig *ty
 			r.assumeGlobal(eq(e.S, app("errcause", in.S)))
 		}
 		return e, true
+	}
+	if strings.HasPrefix(name, "(*sync/atomic.Pointer[") {
+		// atomic.Pointer[T]: the pointer is held in field v
+		used()
+		pt := fn.Signature.Recv().Type().(*types.Pointer).Elem()
+		si := r.eng.sorts.structOf(pt)
+		fi := -1
+		for i := 0; i < si.st.NumFields(); i++ {
+			if si.st.Field(i).Name() == "v" {
+				fi = i
+			}
+		}
+		if fi >= 0 {
+			recv := fr.tvOf(st, args[0], nil)
+			a := &Addr{kind: aField, base: recv.S, si: si, field: fi, typ: si.st.Field(fi).Type()}
+			method := name[strings.LastIndex(name, ".")+1:]
+			switch method {
+			case "Load":
+				v := r.load(st, a)
+				v.S = r.define("aload", v.Sort, v.S)
+				v.T = sig.Results().At(0).Type()
+				r.assumeGlobal(r.typeInv(v.S, v.T, st))
+				return v, true
+			case "Store":
+				r.store(st, a, fr.tvOf(st, args[1], nil))
+				return nil, true
+			case "CompareAndSwap":
+				cur := r.load(st, a)
+				o, n := fr.tvOf(st, args[1], nil), fr.tvOf(st, args[2], nil)
+				okc := r.define("cas", SBool, eq(cur.S, o.S))
+				r.store(st, a, TV{ite(okc, n.S, cur.S), cur.Sort, a.typ})
+				return TV{okc, SBool, types.Typ[types.Bool]}, true
+			case "Swap":
+				cur := r.load(st, a)
+				cur.S = r.define("aswap", cur.Sort, cur.S)
+				cur.T = sig.Results().At(0).Type()
+				r.store(st, a, fr.tvOf(st, args[1], nil))
+				return cur, true
+			}
+		}
 	}
 	switch name {
 	case "(encoding/binary.bigEndian).PutUint64", "(encoding/binary.bigEndian).PutUint32", "(encoding/binary.bigEndian).PutUint16",
